@@ -831,6 +831,44 @@ func (c *SpecCtx) call(e *ECall) (Term, error) {
 			return Term{fmt.Sprintf("(rd_len %s)", r), "Int", nil}, nil
 		}
 		return Term{fmt.Sprintf("(select %s %s)", vc.get(c.state(), vc.rdposComp()), r), "Int", nil}, nil
+	case "mapof", "mhas", "mval":
+		x, err := c.eval(e.Args[0])
+		if err != nil {
+			return Term{}, err
+		}
+		if x.T == nil {
+			return Term{}, fmt.Errorf("%s of untyped term", e.Fun)
+		}
+		mt, ok := x.T.Underlying().(*types.Map)
+		if !ok {
+			return Term{}, fmt.Errorf("%s of %s", e.Fun, x.T)
+		}
+		comp := vc.mapComp(mt)
+		arr := fmt.Sprintf("(select %s %s)", vc.get(c.state(), comp), x.S)
+		asort := fmt.Sprintf("(Array %s %s)", vc.sortOf(mt.Key()), vc.optSort(mt.Elem()))
+		if e.Fun == "mapof" {
+			return Term{arr, asort, nil}, nil
+		}
+		k, err := c.eval(e.Args[1])
+		if err != nil {
+			return Term{}, err
+		}
+		tk := typeKey(mt.Elem())
+		if e.Fun == "mhas" {
+			return Term{fmt.Sprintf("((_ is some_%s) (select %s %s))", tk, arr, k.S), "Bool", nil}, nil
+		}
+		return Term{fmt.Sprintf("(val_%s (select %s %s))", tk, arr, k.S), vc.sortOf(mt.Elem()), mt.Elem()}, nil
+	case "str":
+		// str(b): string(b) for a byte slice b
+		x, err := c.eval(e.Args[0])
+		if err != nil {
+			return Term{}, err
+		}
+		if x.Sort != "Slice" {
+			return Term{}, fmt.Errorf("str() of %s", x.Sort)
+		}
+		comp := vc.arrComp(types.Typ[types.Uint8])
+		return Term{fmt.Sprintf("(str_of (select %s (sl_ref %s)) (sl_off %s) (sl_len %s))", vc.get(c.state(), comp), x.S, x.S, x.S), "Str", types.Typ[types.String]}, nil
 	case "owned":
 		x, err := c.eval(e.Args[0])
 		if err != nil {
@@ -843,6 +881,16 @@ func (c *SpecCtx) call(e *ECall) (Term, error) {
 			return Term{}, err
 		}
 		return Term{vc.canon(strings.TrimSuffix(e.Fun, "canon"), x.S), "Int", nil}, nil
+	case "chsent", "chclosed":
+		x, err := c.eval(e.Args[0])
+		if err != nil {
+			return Term{}, err
+		}
+		if e.Fun == "chsent" {
+			return Term{fmt.Sprintf("(select %s %s)", vc.get(c.state(), vc.chsentComp()), x.S), "Int", nil}, nil
+		}
+		vc.comp("$chclosed", "(Array Int Bool)")
+		return Term{fmt.Sprintf("(select %s %s)", vc.get(c.state(), "$chclosed"), x.S), "Bool", nil}, nil
 	case "chpos":
 		x, err := c.eval(e.Args[0])
 		if err != nil {
